@@ -195,6 +195,10 @@ func Ite(c, a, b Term) Term {
 }
 
 func Add(a, b Term) Term { return App("+", SInt, a, b) }
+
+// At is the address of element i of a window starting at off: an uninterpreted wrapper around
+// off+i so that quantifier triggers never contain arithmetic.
+func At(off, i Term) Term { return App("at", SInt, off, i) }
 func Sub(a, b Term) Term { return App("-", SInt, a, b) }
 func Mul(a, b Term) Term { return App("*", SInt, a, b) }
 func Lt(a, b Term) Term  { return App("<", SBool, a, b) }
